@@ -14,6 +14,8 @@ unreadable file).
 import json
 import os
 import shutil
+import threading
+import time
 from pathlib import Path
 
 from sim import dtgen, env, fs as simfs, kernel
@@ -73,7 +75,7 @@ class C17(Check):
                    'prefix; power loss (un-fsynced data vanishing after a completed rename) is not judged',
                    'one fault per replayed history']
     PROBES = ('fs.error', 'fs.torn', 'fs.crash_before', 'fs.crash_after', 'fs.crash_torn', 'c17.corrupt-file',
-              'c17.restart-after-crash', 'c17.retry-after-error', 'c17.cfg-given')
+              'c17.restart-after-crash', 'c17.retry-after-error', 'c17.cfg-given', 'c17.concurrent-saves')
 
     def gen_case(self, rng, tier):
         params = []
@@ -100,6 +102,13 @@ class C17(Check):
         ops.append({'kind': 'save'})
         shape = {'spec': {'params': params, 'plain': plain}, 'nflip': 6 if tier == 'quick' else 40,
                  'prepopulate': rng.choice([None, 'valid', 'valid'])}
+        if rng.random() < 0.3:
+            # two threads change persistent parameters of the module at the same time (a poller assigning a reading, a
+            # command of a client): the automatic saves must not get into each other's way
+            shape['concurrent'] = [{'p': rng.choice(params)['name'], 'dt': rng.choice([0, 0, 0.001])} for _ in range(rng.choice([2, 2, 3]))]
+            for c in shape['concurrent']:
+                c['v'] = dtgen.valid_wire(rng, next(p['di'] for p in params if p['name'] == c['p']))
+            shape['p_switch'] = rng.choice([0.3, 0.6])
         return {'shape': shape, 'ops': ops}
 
     # ------------------------------------------------------------------ machinery
@@ -239,6 +248,51 @@ class C17(Check):
                 (ctx['root'] / 'persistent').mkdir(parents=True)
                 data = {p['name']: p['default'] for p in spec['params']}
                 self.target(ctx).write_text(json.dumps(data), encoding='utf-8')
+        # ---- 0. concurrent changes from several threads (no fault): the file is a complete snapshot after every file
+        #         operation and holds the live values at the end
+        if case['shape'].get('concurrent'):
+            sim.count('c17.concurrent-saves')
+            fresh_dir()
+            fs0 = ctx['fs']
+            fs0.reset(None)
+            mod = self.create(ctx, cls, spec)
+            bad = []
+
+            def look():
+                st_, data_ = self.read_target(ctx)
+                if st_ == 'garbage' and len(bad) < 3:
+                    bad.append((fs0.log[-1] if fs0.log else None, str(data_)[:80]))
+            fs0.yield_ops = True
+            fs0.on_done = look
+            errs = []
+
+            def changer(c):
+                if c['dt']:
+                    time.sleep(c['dt'])
+                di_ = next(p['di'] for p in spec['params'] if p['name'] == c['p'])
+                try:
+                    setattr(mod, c['p'], dtgen.to_internal(di_, c['v']))
+                except Exception as e:   # noqa
+                    errs.append(repr(e))
+            ths = [threading.Thread(target=changer, args=(c,), name=f'changer{i}')
+                   for i, c in enumerate(case['shape']['concurrent'])]
+            for t in ths:
+                t.start()
+            for t in ths:
+                t.join()
+            fs0.yield_ops = False
+            fs0.on_done = None
+            st_, data_ = self.read_target(ctx)
+            live_ = self.snapshot(mod)
+            autos = all(p['persistent'] == 'auto' for p in spec['params'] if p['name'] in {c['p'] for c in case['shape']['concurrent']})
+            if bad:
+                V.append(Violation('C17.partial-file', 'concurrent-saves',
+                                   f'while {len(ths)} threads changed persistent parameters at the same time the file was '
+                                   f'no complete snapshot after {bad[0][0]}: {bad[0][1]!r}'))
+            elif st_ != 'ok' or (autos and data_ != live_):
+                V.append(Violation('C17.file-differs-from-live-values', 'concurrent-saves',
+                                   f'after {len(ths)} threads changed persistent parameters at the same time the file holds '
+                                   f'{data_!r} ({st_}), live values {live_!r}'))
         # ---- 1. fault-free run: learn the file operations of every step, check the round trip
         fresh_dir()
         base = self.run_history(sim, ctx, cls, case, None)
